@@ -572,7 +572,7 @@ def explore(rep, br, tier, seed):
 import p_corr  # noqa: E402
 PROP_FILES = PROP_FILES + ["Props/P.v"]
 RUN_FILES = RUN_FILES + ["Run/PRun.v"]
-LEVEL_TEXT = LEVEL_TEXT + (" P (character-level parser model, Model/StmtParse.v): every ctx_start/ctx_end the parser stores in a token and every span it reports is compared with the model's on every text (an edit that moves a stored position is a disagreement with a concrete text), and every offset must lie within [0, len(text)] whatever the model says.")
+LEVEL_TEXT = LEVEL_TEXT + (" P (character-level parser model, Model/StmtParse.v): P_offsets_in_file (closed theorem: for every text and any fuel, every ctx_start/ctx_end of every token of the parsed tree and every diagnostic span satisfies start <= end <= len text -- the 'range lies inside that file with start not after end' clause at parser level); every ctx_start/ctx_end the parser stores in a token and every span it reports is compared with the model's on every text (an edit that moves a stored position is a disagreement with a concrete text), and every offset must lie within [0, len(text)] whatever the model says.")
 _explore_without_p = explore
 _replay_without_p = replay
 
